@@ -29,7 +29,21 @@ DiffVerdict(e) ==
   ELSE IF Join(a.lines, sep) # e.real THEN <<"diff:result-differs-from-real-run", Join(a.lines, sep)>>
   ELSE Good
 
-Verdict(e) == CASE e.ev = "rewrite" -> RewriteVerdict(e) [] e.ev = "diff" -> DiffVerdict(e) [] OTHER -> <<"unknown-event", e.ev>>
+\* a file whose occurrences the generator placed itself (legacy patterns, for which the trace spec has no renderer here):
+\*  e.old, e.new : file text before / after   e.occ : placed occurrences [line, start, end, pat]   e.texts : the text each pattern must show afterwards
+\*  (the announced version for {version}, the PEP440 value printed by `test` for {pep440_version})
+SubstVerdict(e) ==
+  LET sep == LineSep(e.old) ol == SplitBy(e.old, sep) nl == SplitBy(e.new, sep)
+      kept == e.occ
+      want == Join([i \in 1..Len(ol) |-> ReplaceLine(ol[i], KeptOfLine(kept, i), e.texts)], sep) IN
+  IF ~e.ok THEN (IF e.new # e.old THEN <<"rewrite:failed-run-changed-file", 0>> ELSE Good)
+  ELSE IF e.new = want THEN Good
+  ELSE IF Len(ol) # Len(nl) \/ Join(nl, sep) # e.new THEN <<"rewrite:c04:line-structure", want>>
+  ELSE IF \E i \in 1..Len(ol) : KeptOfLine(kept, i) = <<>> /\ nl[i] # ol[i] THEN <<"rewrite:c04:unmatched-line-changed", want>>
+  ELSE IF \E i \in 1..Len(ol) : ~OnlySpansChanged(ol[i], nl[i], KeptOfLine(kept, i)) THEN <<"rewrite:c04:text-outside-span-changed", want>>
+  ELSE <<"rewrite:c03:occurrence-not-updated", want>>
+
+Verdict(e) == CASE e.ev = "subst" -> SubstVerdict(e) [] e.ev = "rewrite" -> RewriteVerdict(e) [] e.ev = "diff" -> DiffVerdict(e) [] OTHER -> <<"unknown-event", e.ev>>
 TraceNext == /\ l <= Len(Trace) /\ l' = l + 1
              /\ LET v == Verdict(Trace[l]) IN v[1] = OK \/ Report(Trace[l], v[1], v[2])
 TraceAccepted == TLCGet("stats").diameter - 1 = Len(Trace)
